@@ -992,7 +992,7 @@ MHD_websocket_decode (struct MHD_WebSocketStream *ws,
           else
           {
             /* without mask */
-            *((uint32_t *) ws->mask_key) = 0;
+            memset (ws->mask_key, 0, 4);
             ws->decode_step = MHD_WebSocket_DecodeStep_HeaderCompleted;
           }
         }
@@ -1021,8 +1021,9 @@ MHD_websocket_decode (struct MHD_WebSocketStream *ws,
     case MHD_WebSocket_DecodeStep_Length2of2:
       {
         ws->frame_header [ws->frame_header_size++] = streambuf [current++];
-        size_t size = (size_t) MHD_htons (
-          *((uint16_t *) &ws->frame_header [2]));
+        uint16_t size16;
+        memcpy (&size16, &ws->frame_header [2], sizeof (size16));
+        size_t size = (size_t) MHD_htons (size16);
         if (125 >= size)
         {
           /* RFC 6455 5.2 Payload length: The minimal number of bytes */
@@ -1069,7 +1070,7 @@ MHD_websocket_decode (struct MHD_WebSocketStream *ws,
         else
         {
           /* without mask */
-          *((uint32_t *) ws->mask_key) = 0;
+          memset (ws->mask_key, 0, 4);
           ws->decode_step = MHD_WebSocket_DecodeStep_HeaderCompleted;
         }
       }
@@ -1079,7 +1080,9 @@ MHD_websocket_decode (struct MHD_WebSocketStream *ws,
     case MHD_WebSocket_DecodeStep_Length8of8:
       {
         ws->frame_header [ws->frame_header_size++] = streambuf [current++];
-        uint64_t size = MHD_htonll (*((uint64_t *) &ws->frame_header [2]));
+        uint64_t size;
+        memcpy (&size, &ws->frame_header [2], sizeof (size));
+        size = MHD_htonll (size);
         if (0x7fffffffffffffff < size)
         {
           /* RFC 6455 5.2 frame-payload-length-63: The length may */
@@ -1146,7 +1149,7 @@ MHD_websocket_decode (struct MHD_WebSocketStream *ws,
         else
         {
           /* without mask */
-          *((uint32_t *) ws->mask_key) = 0;
+          memset (ws->mask_key, 0, 4);
           ws->decode_step = MHD_WebSocket_DecodeStep_HeaderCompleted;
         }
       }
@@ -1155,9 +1158,9 @@ MHD_websocket_decode (struct MHD_WebSocketStream *ws,
     /* mask finished */
     case MHD_WebSocket_DecodeStep_Mask4Of4:
       ws->frame_header [ws->frame_header_size++] = streambuf [current++];
-      *((uint32_t *) ws->mask_key) = *((uint32_t *) &ws->frame_header [ws->
-                                                                       frame_header_size
-                                                                       - 4]);
+      memcpy (ws->mask_key,
+              &ws->frame_header [ws->frame_header_size - 4],
+              4);
       ws->decode_step = MHD_WebSocket_DecodeStep_HeaderCompleted;
       break;
 
@@ -1187,6 +1190,8 @@ MHD_websocket_decode (struct MHD_WebSocketStream *ws,
         if (0 != bytes_to_take)
         {
           size_t utf8_start     = ws->payload_index;
+          uint32_t mask;
+          memcpy (&mask, ws->mask_key, sizeof (mask));
           char *decode_payload = ws->decode_step ==
                                  MHD_WebSocket_DecodeStep_PayloadOfDataFrame ?
                                  ws->data_payload_start :
@@ -1196,7 +1201,7 @@ MHD_websocket_decode (struct MHD_WebSocketStream *ws,
           MHD_websocket_copy_payload (decode_payload + ws->payload_index,
                                       &streambuf [current],
                                       bytes_to_take,
-                                      *((uint32_t *) ws->mask_key),
+                                      mask,
                                       (unsigned long) (ws->payload_index
                                                        & 0x03));
           current += bytes_to_take;
@@ -1640,7 +1645,11 @@ MHD_websocket_split_close_reason (const char *payload,
   else
   {
     if (NULL != reason_code)
-      *reason_code = MHD_htons (*((uint16_t *) payload));
+    {
+      uint16_t reason_code_nb;
+      memcpy (&reason_code_nb, payload, sizeof (reason_code_nb));
+      *reason_code = MHD_htons (reason_code_nb);
+    }
   }
 
   /* decode reason text */
@@ -1825,13 +1834,15 @@ MHD_websocket_encode_data (struct MHD_WebSocketStream *ws,
   else if (65536 > payload_len)
   {
     *(result++) = is_masked | 126;
-    *((uint16_t *) result) = MHD_htons ((uint16_t) payload_len);
+    uint16_t len16 = MHD_htons ((uint16_t) payload_len);
+    memcpy (result, &len16, 2);
     result += 2;
   }
   else
   {
     *(result++) = is_masked | 127;
-    *((uint64_t *) result) = MHD_htonll ((uint64_t) payload_len);
+    uint64_t len64 = MHD_htonll ((uint64_t) payload_len);
+    memcpy (result, &len64, 8);
     result += 8;
 
   }
@@ -2124,7 +2135,7 @@ MHD_websocket_copy_payload (char *dst,
     {
       /* mask is used */
       char mask_[4];
-      *((uint32_t *) mask_) = mask;
+      memcpy (mask_, &mask, 4);
       for (size_t i = 0; i < len; ++i)
       {
         dst[i] = src[i] ^ mask_[(i + mask_offset) & 3];
@@ -2375,7 +2386,9 @@ MHD_websocket_generate_mask (struct MHD_WebSocketStream *ws)
     mask_ [3] = 0;
   }
 
-  return *((uint32_t *) mask_);
+  uint32_t mask;
+  memcpy (&mask, mask_, sizeof (mask));
+  return mask;
 }
 
 
